@@ -86,6 +86,72 @@ fn walk<I: MonItem>(
     }
 }
 
+thread_local! {
+    static AUX: std::cell::RefCell<Option<(Treap<AffItem>, Vec<u64>)>> = std::cell::RefCell::new(None);
+    static AUX_ERR: std::cell::RefCell<Option<String>> = std::cell::RefCell::new(None);
+}
+
+/// one round of work on this thread's auxiliary treap (values sorted, so value predicates are lawful): split_by with a
+/// predicate that (down to `depth`) does the same again, merge back, now and then insert / remove at the ends, collect.
+/// Results are compared with the auxiliary model; the first mismatch is parked in AUX_ERR.
+fn aux_exercise(x: u64, depth: u32) {
+    let taken = AUX.with(|c| c.borrow_mut().take());
+    let (t, mut model) = match taken {
+        Some(p) => p,
+        None => {
+            let mut t: Treap<AffItem> = Treap::new();
+            let mut model = Vec::new();
+            for k in 0..24u64 {
+                t.insert_at(k as usize, AffItem::make(1_000_000 + k as u32, &(10 * k + 5)));
+                model.push(10 * k + 5);
+            }
+            (t, model)
+        }
+    };
+    let len = model.len();
+    let k = (x % (len as u64 + 1)) as usize;
+    let thr = if k == len { u64::MAX } else { model[k] };
+    let mut inner_calls = 0u64;
+    let (l, r) = t.split_by(|it: &AffItem| {
+        inner_calls += 1;
+        if depth > 1 && inner_calls == 2 {
+            // the auxiliary treap is taken out while this runs: the nested round builds a fresh one and drops it
+            aux_exercise(x / 3 + 1, depth - 1);
+            AUX.with(|c| *c.borrow_mut() = None);
+        }
+        it.val < thr
+    });
+    let mut err: Option<String> = None;
+    if l.size() != k || r.size() != len - k {
+        err = Some(format!("nested split_by at {} of {}: sizes {} and {}", k, len, l.size(), r.size()));
+    }
+    let mut t = Treap::merge(l, r);
+    if x % 5 == 0 && len < 40 {
+        let v = model.last().copied().unwrap_or(0) + 10;
+        t.insert_at(len, AffItem::make(1_000_000 + (v / 10) as u32, &v));
+        model.push(v);
+    } else if x % 5 == 1 && len > 12 {
+        let got = t.remove_at(len - 1);
+        let want = model.pop().unwrap();
+        if got.val != want {
+            err = Some(format!("nested remove_at returned {} instead of {}", got.val, want));
+        }
+    }
+    let got: Vec<u64> = t.collect().iter().map(|it| it.val).collect();
+    if got != model {
+        err = Some(format!("nested collect gave {:?}, want {:?}", got, model));
+    }
+    if let Some(e) = err {
+        AUX_ERR.with(|c| {
+            let mut c = c.borrow_mut();
+            if c.is_none() {
+                *c = Some(e);
+            }
+        });
+    }
+    AUX.with(|c| *c.borrow_mut() = Some((t, model)));
+}
+
 impl<'a, I: MonItem> World<'a, I> {
     pub fn new(regime: Regime, seed: u64, rep: &'a mut Report, replay: Vec<String>) -> Self {
         World {
@@ -182,6 +248,12 @@ impl<'a, I: MonItem> World<'a, I> {
         }
     }
 
+    fn note_only(&mut self, s: String) {
+        if self.log.len() < 600 {
+            self.log.push(s);
+        }
+    }
+
     fn note(&mut self, s: String) {
         if self.log.len() < 600 {
             self.log.push(s);
@@ -227,17 +299,28 @@ impl<'a, I: MonItem> World<'a, I> {
         self.pool.push(Live { treap: r, model: rm });
     }
 
-    /// split by the prefix-monotone predicate "the element is one of the first k elements"
-    pub fn op_split_by_prefix(&mut self, i: usize, k: usize) {
-        self.note(format!("split_by pool[{}] pred = id in first {} elements", i, k));
+    /// split by the prefix-monotone predicate "the element is one of the first k elements"; a re-entrant predicate works
+    /// on another, independent treap of the same thread (splits it with a predicate of its own, merges it back, collects
+    /// it) every other time it is asked
+    pub fn op_split_by_prefix(&mut self, i: usize, k: usize, reentrant: bool) {
+        self.note(format!("split_by pool[{}] pred = id in first {} elements{}", i, k, if reentrant { " (the predicate splits / merges / collects an independent treap while it runs)" } else { "" }));
         let live = self.pool.remove(i);
         let ids: std::collections::HashSet<u32> = live.model[..k].iter().map(|x| x.0).collect();
         let mut calls = 0u64;
+        let mut aux_runs = 0u64;
         let (l, r) = lib!(live.treap.split_by(|it: &I| {
             calls += 1;
+            if reentrant && calls % 2 == 1 {
+                aux_runs += 1;
+                aux_exercise(calls + k as u64 * 7, 2);
+            }
             ids.contains(&it.id())
         }));
         self.rep.count("split_by_pred_calls", calls);
+        self.rep.count("reentrant_predicate_runs_on_an_independent_treap", aux_runs);
+        if let Some(e) = AUX_ERR.with(|c| c.borrow_mut().take()) {
+            self.violation("reentrant_aux", Json::obj().set("what", "an independent treap used by a split_by predicate (while the outer split_by was running) gave a wrong result").set("error", e));
+        }
         let mut lm = live.model;
         let rm = lm.split_off(k);
         self.pool.push(Live { treap: l, model: lm });
@@ -465,6 +548,121 @@ impl<'a, I: MonItem> World<'a, I> {
     }
 }
 
+/// one operation of a random history
+fn random_step<I: MonItem>(w: &mut World<I>, rng: &mut Rng, regime: Regime, kinds: &mut u32, hist_hash: &mut u64) {
+    w.drop_empty_and_excess();
+    let np = w.pool.len();
+    let total = w.total_elems();
+    // choose an op; weights adapt to the state
+    let choice = if np == 0 || (total < 4 && rng.chance(1, 2)) { 0 } else { rng.weighted(&[6, 1, 10, 10, 8, 12, 8, 4, 3, 3, 10, 12, 4, 3, 6]) };
+    let i = if np > 0 { rng.usize_below(np) } else { 0 };
+    let len = if np > 0 { w.pool[i].model.len() } else { 0 };
+    *kinds |= 1 << choice;
+    *hist_hash = mix(&[*hist_hash, choice as u64, i as u64]);
+    match choice {
+        0 => w.op_create(I::gen_elem(rng)),
+        1 => w.op_create_empty(),
+        2 => {
+            if np >= 2 {
+                let mut j = rng.usize_below(np - 1);
+                if j >= i {
+                    j += 1;
+                }
+                w.op_merge(i, j);
+            } else {
+                w.op_create(I::gen_elem(rng));
+            }
+        }
+        3 => w.op_split_at(i, rng.range_usize(0, len)),
+        4 => {
+            // by value if the model happens to be sorted, else by prefix membership
+            let sorted = w.pool[i].model.windows(2).all(|p| I::key(&p[0].1) <= I::key(&p[1].1));
+            if sorted && len > 0 && rng.chance(1, 2) {
+                let t = I::key(&w.pool[i].model[rng.usize_below(len)].1) + rng.below(2);
+                w.rep.inc("split_by_value");
+                w.op_split_by_value(i, t);
+            } else {
+                w.rep.inc("split_by_prefix");
+                w.op_split_by_prefix(i, rng.range_usize(0, len), rng.chance(1, 3));
+            }
+        }
+        5 => {
+            if total < 60 {
+                let via_lib = regime == Regime::Library || rng.chance(1, 3);
+                if via_lib && rng.chance(1, 4) {
+                    w.op_insert_pending(i, rng.range_usize(0, len), I::gen_elem(rng), I::gen_mod(rng));
+                } else {
+                    w.op_insert_at(i, rng.range_usize(0, len), I::gen_elem(rng), via_lib);
+                }
+            }
+        }
+        6 => {
+            if len > 0 {
+                w.op_remove_at(i, rng.usize_below(len));
+            }
+        }
+        7 => w.op_first_last(i, true),
+        8 => w.op_first_last(i, false),
+        9 => w.op_size_root(i),
+        10 => w.op_attach(i, I::gen_mod(rng)),
+        11 => {
+            if len > 0 {
+                let a = rng.range_usize(0, len);
+                let b = rng.range_usize(0, len);
+                let (l, r) = (a.min(b), a.max(b));
+                w.op_range_attach(i, l, r, I::gen_mod(rng), rng.chance(3, 4));
+            }
+        }
+        12 => {
+            if rng.chance(1, 3) {
+                w.op_collect(i)
+            } else {
+                w.op_size_root(i)
+            }
+        }
+        13 => {
+            if len > 0 {
+                w.op_rotate(i, rng.range_usize(0, len));
+            }
+        }
+        _ => {
+            if len > 0 {
+                let j = rng.usize_below(np);
+                let pos = rng.usize_below(len);
+                let pos2 = rng.usize_below(w.pool[j].model.len() + 1);
+                w.op_move(i, pos, j, pos2);
+            }
+        }
+    }
+    let last = w.log.last().cloned().unwrap_or_default();
+    w.check_all(&last);
+    w.rep.max("max_treap_len", w.pool.iter().map(|l| l.model.len()).max().unwrap_or(0) as i64);
+}
+
+fn random_finish<I: MonItem>(w: &mut World<I>, regime: Regime, kinds: &u32, hist_hash: &u64, case_seed: u64, nops: usize, verbose: bool) {
+    // final: everything collected and compared
+    for i in 0..w.pool.len() {
+        w.op_size_root(i);
+        w.op_first_last(i, true);
+        w.op_first_last(i, false);
+        w.op_collect(i);
+    }
+    w.check_all("final collect");
+    // non-trivial: a lazy attachment was followed by structural operations
+    if *kinds & ((1 << 10) | (1 << 11)) != 0 && *kinds & ((1 << 2) | (1 << 3) | (1 << 4) | (1 << 5) | (1 << 6)) != 0 {
+        w.rep.see("nontrivial", mix(&[*hist_hash, case_seed]));
+    }
+    if w.rep.wants_sample() && nops <= 12 {
+        let s = Json::obj().set("item", I::name()).set("priority_regime", format!("{:?}", regime)).set("history", Json::from(w.log.clone()));
+        w.rep.sample(s);
+    }
+    if verbose {
+        for l in &w.log {
+            eprintln!("  {}", l);
+        }
+    }
+}
+
 /// one random history, determined by (item, case_seed)
 pub fn run_random_case<I: MonItem>(case_seed: u64, rep: &mut Report, verbose: bool) {
     let mut rng = Rng::new(case_seed);
@@ -475,120 +673,44 @@ pub fn run_random_case<I: MonItem>(case_seed: u64, rep: &mut Report, verbose: bo
     rep.inc(&format!("histories_regime_{:?}", regime));
     let mut w: World<I> = World::new(regime, case_seed, rep, replay);
     let nops = rng.range_usize(5, 60);
-    let r = catch(|| {
-        let mut hist_hash = 0u64;
-        let mut kinds = 0u32;
-        for _ in 0..nops {
-            w.drop_empty_and_excess();
-            let np = w.pool.len();
-            let total = w.total_elems();
-            // choose an op; weights adapt to the state
-            let choice = if np == 0 || (total < 4 && rng.chance(1, 2)) { 0 } else { rng.weighted(&[6, 1, 10, 10, 8, 12, 8, 4, 3, 3, 10, 12, 4, 3, 6]) };
-            let i = if np > 0 { rng.usize_below(np) } else { 0 };
-            let len = if np > 0 { w.pool[i].model.len() } else { 0 };
-            kinds |= 1 << choice;
-            hist_hash = mix(&[hist_hash, choice as u64, i as u64]);
-            match choice {
-                0 => w.op_create(I::gen_elem(&mut rng)),
-                1 => w.op_create_empty(),
-                2 => {
-                    if np >= 2 {
-                        let mut j = rng.usize_below(np - 1);
-                        if j >= i {
-                            j += 1;
-                        }
-                        w.op_merge(i, j);
-                    } else {
-                        w.op_create(I::gen_elem(&mut rng));
-                    }
+    // one history in 256 is handed from thread to thread: every few operations the whole world (treaps with their
+    // pending modifications included) moves to a thread that has never touched a treap before, and the history goes on
+    // there - nothing about a treap may live in the thread that built it
+    let handover = rng.chance(1, 256);
+    let mut kinds = 0u32;
+    let mut hist_hash = 0u64;
+    let mut r: Result<(), common::PanicInfo> = Ok(());
+    let mut done = 0usize;
+    while done < nops && r.is_ok() {
+        let chunk = if handover { rng.range_usize(2, 20).min(nops - done) } else { nops - done };
+        let run = |w: &mut World<I>, rng: &mut Rng, kinds: &mut u32, hist_hash: &mut u64| {
+            catch(|| {
+                for _ in 0..chunk {
+                    random_step(w, rng, regime, kinds, hist_hash);
                 }
-                3 => w.op_split_at(i, rng.range_usize(0, len)),
-                4 => {
-                    // by value if the model happens to be sorted, else by prefix membership
-                    let sorted = w.pool[i].model.windows(2).all(|p| I::key(&p[0].1) <= I::key(&p[1].1));
-                    if sorted && len > 0 && rng.chance(1, 2) {
-                        let t = I::key(&w.pool[i].model[rng.usize_below(len)].1) + rng.below(2);
-                        w.rep.inc("split_by_value");
-                        w.op_split_by_value(i, t);
-                    } else {
-                        w.rep.inc("split_by_prefix");
-                        w.op_split_by_prefix(i, rng.range_usize(0, len));
-                    }
-                }
-                5 => {
-                    if total < 60 {
-                        let via_lib = regime == Regime::Library || rng.chance(1, 3);
-                        if via_lib && rng.chance(1, 4) {
-                            w.op_insert_pending(i, rng.range_usize(0, len), I::gen_elem(&mut rng), I::gen_mod(&mut rng));
-                        } else {
-                            w.op_insert_at(i, rng.range_usize(0, len), I::gen_elem(&mut rng), via_lib);
-                        }
-                    }
-                }
-                6 => {
-                    if len > 0 {
-                        w.op_remove_at(i, rng.usize_below(len));
-                    }
-                }
-                7 => w.op_first_last(i, true),
-                8 => w.op_first_last(i, false),
-                9 => w.op_size_root(i),
-                10 => w.op_attach(i, I::gen_mod(&mut rng)),
-                11 => {
-                    if len > 0 {
-                        let a = rng.range_usize(0, len);
-                        let b = rng.range_usize(0, len);
-                        let (l, r) = (a.min(b), a.max(b));
-                        w.op_range_attach(i, l, r, I::gen_mod(&mut rng), rng.chance(3, 4));
-                    }
-                }
-                12 => {
-                    if rng.chance(1, 3) {
-                        w.op_collect(i)
-                    } else {
-                        w.op_size_root(i)
-                    }
-                }
-                13 => {
-                    if len > 0 {
-                        w.op_rotate(i, rng.range_usize(0, len));
-                    }
-                }
-                _ => {
-                    if len > 0 {
-                        let j = rng.usize_below(np);
-                        let pos = rng.usize_below(len);
-                        let pos2 = rng.usize_below(w.pool[j].model.len() + 1);
-                        w.op_move(i, pos, j, pos2);
-                    }
-                }
-            }
-            let last = w.log.last().cloned().unwrap_or_default();
-            w.check_all(&last);
-            w.rep.max("max_treap_len", w.pool.iter().map(|l| l.model.len()).max().unwrap_or(0) as i64);
-        }
-        // final: everything collected and compared
-        for i in 0..w.pool.len() {
-            w.op_size_root(i);
-            w.op_first_last(i, true);
-            w.op_first_last(i, false);
-            w.op_collect(i);
-        }
-        w.check_all("final collect");
-        // non-trivial: a lazy attachment was followed by structural operations
-        if kinds & ((1 << 10) | (1 << 11)) != 0 && kinds & ((1 << 2) | (1 << 3) | (1 << 4) | (1 << 5) | (1 << 6)) != 0 {
-            w.rep.see("nontrivial", mix(&[hist_hash, case_seed]));
-        }
-        if w.rep.wants_sample() && nops <= 12 {
-            let s = Json::obj().set("item", I::name()).set("priority_regime", format!("{:?}", regime)).set("history", Json::from(w.log.clone()));
-            w.rep.sample(s);
-        }
-        if verbose {
-            for l in &w.log {
-                eprintln!("  {}", l);
-            }
-        }
-    });
+            })
+        };
+        r = if handover {
+            w.rep.inc("thread_handovers");
+            w.note_only("(the history continues on a fresh thread)".to_string());
+            let (wr, rr, kr, hr) = (&mut w, &mut rng, &mut kinds, &mut hist_hash);
+            std::thread::scope(|s| s.spawn(move || run(wr, rr, kr, hr)).join().expect("handover thread"))
+        } else {
+            run(&mut w, &mut rng, &mut kinds, &mut hist_hash)
+        };
+        done += chunk;
+    }
+    if r.is_ok() {
+        r = if handover {
+            let (wr, kr, hr) = (&mut w, &kinds, &hist_hash);
+            std::thread::scope(|s| s.spawn(move || catch(|| random_finish(wr, regime, kr, hr, case_seed, nops, verbose))).join().expect("handover thread"))
+        } else {
+            catch(|| random_finish(&mut w, regime, &kinds, &hist_hash, case_seed, nops, verbose))
+        };
+    }
+    if handover {
+        w.rep.inc("histories_handed_between_threads");
+    }
     if let Err(p) = r {
         if p.in_lib {
             let d = Json::obj().set("what", "the library panicked on a lawful operation").set("panic", p.msg.as_str()).set("at", format!("{}:{}", p.file, p.line));
@@ -716,7 +838,7 @@ pub fn run_deep_case<I: MonItem>(case_seed: u64, rep: &mut Report, verbose: bool
                     }
                 }
                 2 | 3 => w.op_split_at(i, rng.range_usize(0, len)),
-                4 => w.op_split_by_prefix(i, rng.range_usize(0, len)),
+                4 => w.op_split_by_prefix(i, rng.range_usize(0, len), rng.chance(1, 2)),
                 5 => {
                     if len > 0 {
                         w.op_rotate(i, rng.range_usize(0, len));
@@ -889,7 +1011,7 @@ pub fn run_exhaustive_case(n: usize, ranks: &[u32], seq: &[usize], ops: &[XOp], 
                 XOp::Rotate(k) => w.op_rotate(0, (*k).min(len)),
                 XOp::SplitByPrefixMerge(k) => {
                     let k = (*k).min(len);
-                    w.op_split_by_prefix(0, k);
+                    w.op_split_by_prefix(0, k, false);
                     w.check_all("split_by (before merging back)");
                     // pool now [left, right]; merge back
                     w.op_merge(0, 1);
